@@ -18,7 +18,8 @@ REQUIRED = ['C18.keyTransform_join', 'C18.keyTransform_too_deep', 'C18.cfgGet_eq
             'C18.path_del_eq_nested', 'C18.get_set_same', 'C18.get_set_other', 'C18.del_removes_only',
             'C18.del_keeps_parent', 'C18.set_missing_parent_errors', 'C18.toYamlSafe_idempotent',
             'C18.toYamlSafe_arrayFree', 'C18.toYamlSafe_same_options', 'C18.roundtrip_file', 'C18.roundtrip_text',
-            'C18.roundtrip_get_func', 'C18.dump_leaves_config_untouched', 'C18.default_config_is_signature_defaults']
+            'C18.roundtrip_get_func', 'C18.dump_leaves_config_untouched', 'C18.default_config_is_signature_defaults',
+            'C18.default_config_agrees_with_option_model']
 TRUSTED = ['PyYAML (dump / dump_all / load / load_all with FullLoader) is an oracle: assumed to satisfy load(dump(t)) = t on '
            'array-free trees; validated on the real library on every run (stream yaml_codec)',
            'inspect.signature is an oracle: the live signatures are handed to the get_config model as tables',
